@@ -58,10 +58,10 @@ def forms (G : Gram N) (starts : List (List (Sym N))) : List (List (Sym N)) :=
   starts.flatMap suffixes ++ G.flatMap (fun r => suffixes r.2)
 
 def univ (G : Gram N) (start : List (List (Sym N))) (w : List B) : List (Fact N) :=
-  (forms G start).flatMap (fun α => (infixes w).map (fun x => (α, x)))
+  (forms G start).eraseDups.flatMap (fun α => (infixes w).eraseDups.map (fun x => (α, x)))
 
 def stepC (G : Gram N) (U : List (Fact N)) (c : Chart N) : Chart N :=
-  U.foldl (fun acc f => if infer G c f then acc.insert f else acc) c
+  U.foldl (fun acc f => if infer G acc f then acc.insert f else acc) c
 
 def iterC (G : Gram N) (U : List (Fact N)) : Nat → Chart N → Chart N
   | 0, c => c
